@@ -697,7 +697,7 @@ class Evaluator(object):
         if isinstance(target, ast.Attribute):
             o = self.eval(target.value, env, func)
             if isinstance(o, Obj):
-                o.fields[target.attr] = v
+                self.store_field(o, target.attr, v)
             else:
                 self.diag('unknown', target, 'attribute store on %s' % type(o).__name__)
             return
@@ -718,6 +718,17 @@ class Evaluator(object):
                 self.diag('unknown', target, 'subscript store on %s' % type(o).__name__)
             return
         self.diag('unknown', target, 'assignment target %s' % type(target).__name__)
+
+    def store_field(self, o, attr, v):
+        """attribute store; inside symbolic if-branches the old value survives where the branch is not taken"""
+        old = o.fields.get(attr)
+        conds = [c for c in self._path if not isinstance(c, Bool)]
+        if old is not None and conds and old is not v:
+            c = conds[0]
+            for x in conds[1:]:
+                c = self.cand(c, x)
+            v = self.ite(c, v, old)
+        o.fields[attr] = v
 
     def unpack(self, v, n, node):
         if isinstance(v, Tup):
@@ -1228,6 +1239,8 @@ class Evaluator(object):
             for x in a:
                 s = s + x * x
             return alg.sqrt(s)
+        if mod == 'copy' and short == 'copy' and len(a) == 1 and isinstance(a[0], Obj):
+            return Obj(a[0].cls, dict(a[0].fields), origin=None)
         if mod == 'builtins':
             if short == 'float' and len(a) == 1:
                 if isinstance(a[0], Rat):
@@ -1238,6 +1251,11 @@ class Evaluator(object):
                     except Exception:
                         pass
                 return alg.opaque('float', (argkey(a[0]),))
+            if short == 'setattr' and len(a) == 3 and isinstance(a[0], Obj) and isinstance(a[1], Str):
+                self.store_field(a[0], a[1].s, a[2])
+                return NONE
+            if short == 'vars' and len(a) == 1 and isinstance(a[0], Obj):
+                return DictV(dict(a[0].fields))
             if short == 'getattr' and len(a) in (2, 3) and isinstance(a[1], Str) and isinstance(a[0], Obj) and a[0].cls is not None:
                 if a[1].s in a[0].fields or a[1].s in a[0].cls.methods:
                     return self.getattr(a[0], a[1].s, node)
@@ -1404,6 +1422,12 @@ class Evaluator(object):
                 return Bool(obj.s.startswith(args[0].s))
         if isinstance(obj, Rat) and attr in ('__neg__', '__abs__', '__float__', '__pos__') and not args:
             return {'__neg__': lambda: -obj, '__abs__': lambda: alg.fabs(obj), '__float__': lambda: obj, '__pos__': lambda: obj}[attr]()
+        if isinstance(obj, DictV) and attr in ('items', 'keys', 'values') and not args:
+            if attr == 'items':
+                return Tup([Tup([Str(k) if isinstance(k, str) else C(k), v]) for k, v in obj.d.items()], True)
+            if attr == 'keys':
+                return Tup([Str(k) if isinstance(k, str) else C(k) for k in obj.d], True)
+            return Tup(list(obj.d.values()), True)
         if isinstance(obj, DictV) and attr == 'get' and args:
             k = _const_key(args[0])
             if k is not None:
